@@ -517,6 +517,9 @@ func c06Diff(a, b *c06Node) string {
 			bv, found := bm[a.Kids[i].canon()]
 			if !found {
 				k := a.Kids[i]
+				if len(a.Kids) != len(b.Kids) {
+					return "map-entries-changed"
+				}
 				// the key itself changed: classify by what happened to the key
 				for j := 0; j+1 < len(b.Kids); j += 2 {
 					if b.Kids[j].K == k.K || k.K == "negzero" {
@@ -1093,6 +1096,106 @@ func c06Direct(es []Ev) (term string, human string, hang bool) {
 	return cApp("BuildCase", cEvs(es), urls, times, impl, iter), human + " :: " + evsString(es), hang
 }
 
+// c06CoqTree renders the value part of a document (events between the header and the end) as a
+// term of CE.Model.Build.dt; ok=false when the stream has record types or is not a complete tree.
+func c06CoqTree(es []Ev) (string, bool) {
+	body := []Ev{}
+	for _, e := range es {
+		if e.K != "pad" && e.K != "cm" {
+			body = append(body, e)
+		}
+	}
+	if len(body) < 4 || body[0].K != "bd" || body[1].K != "v" || body[len(body)-1].K != "ed" {
+		return "", false
+	}
+	body = body[2 : len(body)-1]
+	pos := 0
+	ok := true
+	var value func() string
+	seq := func() []string {
+		out := []string{}
+		for ok {
+			if pos >= len(body) {
+				ok = false
+				break
+			}
+			if body[pos].K == "e" {
+				pos++
+				break
+			}
+			out = append(out, value())
+		}
+		return out
+	}
+	value = func() string {
+		if pos >= len(body) {
+			ok = false
+			return "(TLeaf ENull)"
+		}
+		e := body[pos]
+		pos++
+		switch e.K {
+		case "l":
+			return cApp("TList", cList(seq()))
+		case "m":
+			kids := seq()
+			if len(kids)%2 != 0 {
+				ok = false
+				return "(TLeaf ENull)"
+			}
+			pairs := []string{}
+			for i := 0; i < len(kids); i += 2 {
+				pairs = append(pairs, cPair(kids[i], kids[i+1]))
+			}
+			return cApp("TMap", cList(pairs))
+		case "node":
+			kids := seq()
+			if len(kids) == 0 {
+				ok = false
+				return "(TLeaf ENull)"
+			}
+			return cApp("TNode", kids[0], cList(kids[1:]))
+		case "edge":
+			kids := seq()
+			if len(kids) != 3 {
+				ok = false
+				return "(TLeaf ENull)"
+			}
+			return cApp("TEdge", kids[0], kids[1], kids[2])
+		case "rec":
+			return cApp("TRecord", cBytes(e.Data), cList(seq()))
+		case "mk":
+			return cApp("TMark", cBytes(e.Data), value())
+		case "ref":
+			return cApp("TRef", cBytes(e.Data))
+		case "ab", "mb", "cbeg":
+			start := pos
+			for pos < len(body) && (body[pos].K == "ac" || body[pos].K == "ad") {
+				pos++
+			}
+			b := ""
+			switch e.K {
+			case "ab":
+				b = cApp("ABArray", cN(uint64(e.A)))
+			case "mb":
+				b = cApp("ABMedia", cBytes([]byte(e.S)))
+			default:
+				b = cApp("ABCustom", cN(uint64(e.A)), cN(e.N))
+			}
+			return cApp("TChunked", b, cEvs(body[start:pos]))
+		case "rt", "e", "bd", "ed", "v":
+			ok = false
+			return "(TLeaf ENull)"
+		}
+		return cApp("TLeaf", cEv(e))
+	}
+	t := value()
+	if pos != len(body) {
+		ok = false
+	}
+	return t, ok
+}
+
 // ---------------------------------------------------------------------------
 // Inputs
 
@@ -1162,7 +1265,7 @@ func (q *c06Gen) str(t events.ArrayType, txt []byte) []Ev {
 
 func (q *c06Gen) key() ([]Ev, string) {
 	r := q.r
-	switch r.Intn(7) {
+	switch r.Intn(6) {
 	case 0:
 		b := r.Intn(2) == 0
 		return []Ev{{K: "b", B: b}}, fmt.Sprint("b", b)
@@ -1182,9 +1285,6 @@ func (q *c06Gen) key() ([]Ev, string) {
 	case 4:
 		t := q.ts()
 		return []Ev{{K: "tm", T: t}}, "t" + t.String()
-	case 5:
-		txt := append([]byte("http://k.x/"), q.ascii()...)
-		return q.str(events.ArrayTypeResourceID, txt), "r" + string(txt)
 	}
 	txt := q.g.text(4)
 	return q.str(events.ArrayTypeString, txt), "s" + string(txt)
@@ -1242,7 +1342,7 @@ func (q *c06Gen) leaf() []Ev {
 		n := uint64(r.Intn(16))
 		data := make([]byte, byteCountFor(t, n))
 		r.Read(data)
-		if (t == events.ArrayTypeUint8 || t == events.ArrayTypeInt8) && r.Intn(2) == 0 {
+		if t == events.ArrayTypeUint8 && r.Intn(2) == 0 {
 			return q.g.chunked(Ev{K: "ab", A: t}, t, n, data)
 		}
 		return []Ev{{K: "a", A: t, N: n, Data: data}}
@@ -1257,7 +1357,7 @@ func (q *c06Gen) leaf() []Ev {
 }
 
 // value: pos is "elem" (list element / node child / map value), "nodevalue", "key" or "top"
-func (q *c06Gen) value(depth int, pos string) []Ev {
+func (q *c06Gen) value(depth int, pos string, inMarked bool) []Ev {
 	r := q.r
 	out := []Ev{}
 	if pos != "top" && pos != "key" && r.Intn(8) == 0 {
@@ -1273,11 +1373,12 @@ func (q *c06Gen) value(depth int, pos string) []Ev {
 	}
 	container := depth < 4 && r.Intn(3) == 0
 	marked := ""
-	if r.Intn(8) == 0 && (container || pos != "nodevalue") {
+	if !inMarked && r.Intn(8) == 0 && (container || pos != "nodevalue") {
 		q.ids++
 		marked = fmt.Sprintf("m%d", q.ids)
 		out = append(out, Ev{K: "mk", Data: []byte(marked)})
 	}
+	inMarked = inMarked || marked != ""
 	if !container {
 		out = append(out, q.leaf()...)
 	} else {
@@ -1287,7 +1388,7 @@ func (q *c06Gen) value(depth int, pos string) []Ev {
 			out = append(out, Ev{K: "l"})
 			for i := 0; i < fan; i++ {
 				out = q.g.trivia(out)
-				out = append(out, q.value(depth+1, "elem")...)
+				out = append(out, q.value(depth+1, "elem", inMarked)...)
 			}
 			out = append(out, Ev{K: "e"})
 		case 1:
@@ -1299,21 +1400,21 @@ func (q *c06Gen) value(depth int, pos string) []Ev {
 					continue
 				}
 				seen[canon] = true
-				if r.Intn(10) == 0 {
+				if !inMarked && r.Intn(10) == 0 {
 					q.ids++
 					id := fmt.Sprintf("k%d", q.ids)
 					out = append(out, Ev{K: "mk", Data: []byte(id)})
 				}
 				out = append(out, k...)
 				out = q.g.trivia(out)
-				out = append(out, q.value(depth+1, "elem")...)
+				out = append(out, q.value(depth+1, "elem", inMarked)...)
 			}
 			out = append(out, Ev{K: "e"})
 		default:
 			out = append(out, Ev{K: "node"})
-			out = append(out, q.value(depth+1, "nodevalue")...)
+			out = append(out, q.value(depth+1, "nodevalue", inMarked)...)
 			for i := 0; i < fan; i++ {
-				out = append(out, q.value(depth+1, "elem")...)
+				out = append(out, q.value(depth+1, "elem", inMarked)...)
 			}
 			out = append(out, Ev{K: "e"})
 		}
@@ -1326,7 +1427,7 @@ func (q *c06Gen) value(depth int, pos string) []Ev {
 
 func (q *c06Gen) document() []Ev {
 	q.ids, q.defd, q.later = 0, nil, nil
-	body := q.value(0, "top")
+	body := q.value(0, "top", false)
 	if len(q.later) > 0 {
 		// give the forward references their targets: wrap everything in a list that ends with the marked values
 		wrapped := []Ev{{K: "l"}}
@@ -1458,7 +1559,7 @@ func c06Inputs(tier string, seed int64) []c06Input {
 	// the fragment the partial theorem is about (no failure expected), without and with forward references
 	g := NewEvGen(r, DefaultGenOpts())
 	q := &c06Gen{r: r, g: g}
-	for i := 0; i < pick(260, 6000); i++ {
+	for i := 0; i < pick(300, 6000); i++ {
 		q.fwd = i%4 == 3
 		label := "fragment"
 		if q.fwd {
@@ -1468,18 +1569,18 @@ func c06Inputs(tier string, seed int64) []c06Input {
 	}
 	// everything the validator accepts
 	full := NewEvGen(r, c06FullOpts())
-	for i := 0; i < pick(70, 4000); i++ {
+	for i := 0; i < pick(150, 4000); i++ {
 		in = append(in, c06Input{Label: "all-constructs", Evs: full.Document(), Oracle: true})
 	}
 	// nested markers are accepted by the validator as well
 	o := c06FullOpts()
 	o.NestedMarkers = true
 	nested := NewEvGen(r, o)
-	for i := 0; i < pick(15, 800); i++ {
+	for i := 0; i < pick(30, 800); i++ {
 		in = append(in, c06Input{Label: "all-constructs-nested-markers", Evs: nested.Document(), Oracle: true})
 	}
 	// malformed streams: only the prefix the validator lets through reaches the builder (correspondence only)
-	for i := 0; i < pick(80, 2500); i++ {
+	for i := 0; i < pick(100, 2500); i++ {
 		var base []Ev
 		if i%2 == 0 {
 			base = q.document()
@@ -1503,6 +1604,7 @@ type c06Result struct {
 	Idx      int
 	Term     string
 	Human    string
+	FragTerm string // frag_case for inputs of the fragment families
 	Fails    []c06Fail
 	Dist     []string
 	CountKey string
@@ -1538,6 +1640,13 @@ func c06Process(idx int, in c06Input) c06Result {
 		res.Dist = append(res.Dist, "construct/"+f)
 	}
 	res.NonTriv = len(in.Evs) > 3
+	if strings.HasPrefix(in.Label, "fragment") || strings.HasPrefix(in.Label, "directed/ok/") {
+		// backward references only: the partial theorem's fragment
+		if t, ok := c06CoqTree(in.Evs); ok && in.Label != "fragment-forward-refs" && in.Label != "directed/ok/forward-refs" {
+			urls, times := c06LibTables(in.Evs)
+			res.FragTerm = cApp("FragCase", cEvs(in.Evs), t, urls, times, cBool(valid))
+		}
+	}
 	// record types whose keys arrive in chunks alias the receiver's chunk buffer (not modelled): keep them out of the correspondence
 	inRT, chunkedKey := false, false
 	for _, e := range fwd {
@@ -1650,6 +1759,8 @@ func runC06(c *Ctx) {
 	_ = c.Rng.Int63()
 	cf := c.Cases("build", "CE.Model.Build", "build_case", "build_case_ok")
 	cf.perFile = 120
+	ff := c.Cases("frag", "CE.Model.Build", "frag_case", "frag_case_ok")
+	ff.perFile = 120
 	next := 0
 	apply := func(r *c06Result) {
 		c.Count(r.CountKey, r.NonTriv)
@@ -1658,6 +1769,9 @@ func runC06(c *Ctx) {
 		}
 		if r.Term != "" {
 			cf.Add(r.Term, r.Human)
+		}
+		if r.FragTerm != "" {
+			ff.Add(r.FragTerm, r.Human)
 		}
 		for _, f := range r.Fails {
 			c.Fail(Replay{Kind: f.Kind, Key: f.Key, Input: f.Input, Expect: f.Expect, Got: f.Got})
